@@ -8,6 +8,12 @@ T_Users == {"u1", "u2"}
 T_Chans == {"#x", "#y"}
 T_Pool == {"a", "b", "me2"}
 T_MyNicks == {"mx", "Me"}
+\* nick-centred universe (C17): requested, refused and forced nicks that are prefixes / extensions of each other
+\* and of the configured nick "me", also borne by another user
+N_Users == {"u1"}
+N_Chans == {"#x"}
+N_Pool == {"a", "m", "mex"}
+N_MyNicks == {"m", "mex", "mx"}
 StateRec == [phase |-> phase, tried |-> tried, snick |-> snick, nick |-> nick, mem |-> mem, kn |-> kn, uh |-> uh, jn |-> jn,
              topic |-> topic, ktopic |-> ktopic, key |-> key, kkey |-> kkey, lim |-> lim, klim |-> klim, pendMode |-> pendMode, pendWho |-> pendWho,
              pendNick |-> pendNick, steps |-> steps]
